@@ -1,6 +1,6 @@
 From Coq Require Import Extraction ExtrOcamlBasic.
-From LV Require Import Lib.Bytes Lib.Prelude Model.C01.
+From LV Require Import Lib.Bytes Lib.Prelude Model.C01 Model.C01Announce.
 Extraction Language OCaml.
 Extraction "c01_model.ml"
   prelude_byte_of_N prelude_N_of_byte prelude_Z_of_N prelude_Z_opp prelude_nat_of_N prelude_N_of_nat
-  init start step run run_log fuel.
+  init start step run run_log fuel astep arun to_announce.
